@@ -38,7 +38,16 @@ func (c c06Case) sig() string {
 	return fmt.Sprintf("mode=%s n=%d crash-before-write=%d torn-pages=%d preload=%v", c.Mode, c.N, c.Write, c.Torn, c.Preload)
 }
 
-func c06Row(i int) model.Row { return model.Row{"v": strconv.Itoa(i)} }
+// c06Row: a unique value per row; from 6000 rows on also a value that holds for every other row (a bitmap that no
+// run-length encoding can shrink, several KiB when serialised)
+func c06Row(i int) model.Row {
+	if c06Scattered {
+		return model.Row{"v": strconv.Itoa(i), "p": strconv.Itoa(i % 2)}
+	}
+	return model.Row{"v": strconv.Itoa(i)}
+}
+
+var c06Scattered bool
 
 // c06Expected: the probe answers of the completely written index.
 type c06Expect struct {
@@ -166,6 +175,7 @@ var c06Seq int
 
 // c06Build runs the writer once; the output file is out.
 func c06Build(mode string, n int, out string) error {
+	c06Scattered = n >= 6000
 	switch mode {
 	case "flush":
 		w := updog.NewIndexWriter(out)
@@ -441,9 +451,9 @@ func c06Worker(ctx *rt.Ctx, job *rt.Job) []*rt.Violation {
 
 func c06Run(ctx *rt.Ctx) []*rt.Violation {
 	var jobs []rt.Job
-	ns := []int{2500, 1001, 1000, 999, 3}
+	ns := []int{6000, 2500, 1001, 1000, 999, 3}
 	if ctx.Thorough() {
-		ns = []int{5000, 3001, 2500, 2001, 2000, 1001, 1000, 999, 3, 1, 0}
+		ns = []int{9000, 6000, 5000, 3001, 2500, 2001, 2000, 1001, 1000, 999, 3, 1, 0}
 	}
 	for _, mode := range []string{"flush", "writetodb", "big"} {
 		for _, n := range ns {
